@@ -101,6 +101,14 @@ def dedup(repo: Repo) -> RuleRun:
         ok = (res is e12) if expect_found else (isinstance(res, tuple) and res[0] == "raised" and res[1].endswith("EdgeNotFoundError"))
         r.check(ok, find, f"find({a},{b}) [{label}] -> {'found' if expect_found else 'EdgeNotFoundError'}", f"EdgeList.find({a},{b}) with an existing edge 1-2 ({label}) gives {res!r}", find.node, key=f"find:{label}")
 
+    # an edge stored with descending vertex indexes must be found from either side as well
+    for label, a, b in (("stored 8-0, asked 0-8", 0, 8), ("stored 8-0, asked 8-0", 8, 0)):
+        this = Obj("edge_list", cls=elist)
+        e80 = mk_edge(8, 0)
+        this.set("edges", [mk_edge(5, 6), e80])
+        res = _run(Evaluator(repo=repo, module=find.module), find, [this, _vertex(a), _vertex(b)])
+        r.check(res is e80, find, f"find [{label}] -> found", f"EdgeList.find({a},{b}) does not find the existing edge stored as 8-0 ({res!r}): the same geometric edge is appended a second time", find.node, key=f"find:{label}")
+
     for label, a, b, valid, n_created, n_listed in (
         ("existing, same order", 1, 2, True, 0, 1),
         ("existing, reversed", 2, 1, True, 0, 1),
